@@ -162,8 +162,9 @@ Proof.
       * apply HP. unfold all_resps in *. simpl in *. rewrite Epc. simpl. exact Hr.
     + unfold reader_send in H.
       destruct ((st_pending st <? c_limit cfg) &&
-                (N.of_nat (length (nth (s_sender ss) (st_senders st) [])) <=? c_maxtasks cfg)); [|discriminate].
-      inversion H; subst. split; [|intros r []]. apply Forall_forall. intros r Hr.
+                (N.of_nat (length (nth (s_sender ss) (st_senders st) [])) <=? c_maxtasks cfg) &&
+                (Nat.ltb (s_sender ss) (length (st_senders st)))); [|discriminate].
+      inversion H; subst. split; [|intros r [E|[]]; discriminate]. apply Forall_forall. intros r Hr.
       unfold all_resps in Hr. simpl in Hr. rewrite app_nil_r in Hr.
       apply HP. unfold all_resps. rewrite Epc. simpl.
       destruct (In_concat_upd_snoc _ _ _ _ Hr) as [Hr'|Hr']; apply in_or_app; [left; exact Hr'|right; left; auto].
